@@ -174,3 +174,8 @@ func SoftFuel(n int) {}
 // origami code takes its iteration order from a symbolic choice (engine only; the
 // native Go runtime randomises by itself).
 func MapOrder(on bool) {}
+
+// Shared marks the memory cell *ptr (ptr is a pointer to a scalar field) as shared between
+// goroutines: under the engine's scheduler every access becomes a schedule point and is checked
+// for happens-before races. No effect natively.
+func Shared(ptr any, name string) {}
